@@ -845,6 +845,7 @@ static bool is_circle(const Array<Vec2> point_array, double tolerance, Vec2& cen
     double radius_sq = radius * radius;
     double neighbor_distance_sq = tolerance + 2 * sqrt(2 * tolerance * (radius - tolerance));
     neighbor_distance_sq *= neighbor_distance_sq;
+    double turn = 0;
     Vec2* pt = point_array.items;
     Vec2* last = point_array.items + point_array.count - 1;
     for (uint64_t i = point_array.count; i > 0; i--) {
@@ -852,10 +853,13 @@ static bool is_circle(const Array<Vec2> point_array, double tolerance, Vec2& cen
             (*pt - *last).length_sq() >= neighbor_distance_sq) {
             return false;
         }
+        turn += (*last - center).angle(*pt - center);
         last = pt++;
     }
 
-    return true;
+    // Points close to the circle that only cover part of it (a sliver along an
+    // arc) are not a circle: the boundary must go once around the center.
+    return fabs(fabs(turn) - 2 * M_PI) < 1e-6;
 }
 
 ErrorCode Polygon::to_oas(OasisStream& out, OasisState& state) const {
